@@ -40,6 +40,7 @@ struct World
     igris::dlist_base *queue[kQueues];
     igris::safe_queue<long> *sq;
     igris::event *ev[kEvents];
+    void *delegates = nullptr; // std::vector<DelegateWaiter *>: the delegate waiters currently parked
     std::vector<TCtx> ctx;
     std::vector<std::vector<igris::dlist_node *>> model; // per queue: nodes in order
     std::map<igris::dlist_node *, int> owner;             // waiter node -> thread
@@ -76,7 +77,7 @@ void observe(int runner)
         std::vector<igris::dlist_node *> &m = w.model[qi];
         if (now == m)
             continue;
-        if (r.cur == O_WAIT && !r.enqueued && r.q == qi && now.size() == m.size() + 1)
+        if ((r.cur == O_WAIT || r.cur == O_DWAIT) && !r.enqueued && r.q == qi && now.size() == m.size() + 1)
         {
             std::vector<igris::dlist_node *> expect = m;
             igris::dlist_node *fresh = r.prio ? now.front() : now.back();
@@ -123,6 +124,36 @@ void yield_point()
         return;
     sched::tl_self->state = sched::T_RUNNABLE;
     sched::yield_now();
+}
+
+// A waiter of the caller's own making (wait.h: waiter_delegate_init): the handler must be called with the object that was
+// registered, which is not at the waiter's address.
+struct DelegateWaiter
+{
+    long pad[3] = {1, 2, 3};
+    waiter w;
+    igris::event ev;
+    long magic = 0x5EEDF00D;
+};
+void delegate_wait_handler(void *arg)
+{
+    DelegateWaiter *d = (DelegateWaiter *)arg;
+    DelegateWaiter **reg = nullptr;
+    (void)reg;
+    if (!W)
+        return;
+    bool known = false;
+    for (auto *k : *(std::vector<DelegateWaiter *> *)W->delegates)
+        known |= k == d;
+    if (!known)
+    {
+        latch("waiter_handler_wrong_object", "the wake handler of a delegate waiter was called with a pointer that is not the object registered with waiter_delegate_init");
+        // wake the registered waiters all the same so that the run can end
+        for (auto *k : *(std::vector<DelegateWaiter *> *)W->delegates)
+            k->ev.signal();
+        return;
+    }
+    d->ev.signal();
 }
 
 void run_op(int tid, const Op &o)
@@ -240,6 +271,28 @@ void run_op(int tid, const Op &o)
     case O_EV_SIGNAL:
         w.ev[o.q]->signal();
         break;
+    case O_DWAIT:
+    {
+        if (c.depth != 0)
+            break;
+        c.woken = false;
+        DelegateWaiter d;
+        waiter_delegate_init(&d.w, delegate_wait_handler, &d);
+        auto *reg = (std::vector<DelegateWaiter *> *)w.delegates;
+        system_lock();
+        reg->push_back(&d);
+        w.queue[o.q]->move_back(d.w.lnk);
+        system_unlock();
+        d.ev.wait();
+        system_lock();
+        reg->erase(std::find(reg->begin(), reg->end(), &d));
+        system_unlock();
+        if (!c.woken)
+            latch("spurious_wakeup", fmt("T%d: its delegate waiter on q%d was signalled although no unwait removed it from the queue", tid, o.q));
+        else if ((long)d.w.future != c.expected_future)
+            latch("wrong_future", fmt("T%d's delegate waiter got future %ld, the unwait that removed it passed %ld", tid, (long)d.w.future, c.expected_future));
+        break;
+    }
     default:
         break;
     }
@@ -297,6 +350,8 @@ ExecResult execute(const Program &prog, const std::vector<int> &prefix, std::fun
     }
     for (int i = 0; i < kEvents; i++)
         w.ev[i] = new igris::event;
+    std::vector<DelegateWaiter *> delegates;
+    w.delegates = &delegates;
     w.model.assign(kQueues, {});
     w.ctx.assign(prog.size() + 64, TCtx{}); // + clean-up threads
     s.prefix = prefix;
